@@ -245,15 +245,11 @@ void BatchSpanProcessor::Export()
     size_t num_records_to_export;
     std::uint64_t notify_force_flush =
         synchronization_data_->force_flush_pending_sequence.load(std::memory_order_acquire);
-    if (notify_force_flush)
-    {
-      num_records_to_export = buffer_.size();
-    }
-    else
-    {
-      num_records_to_export =
-          buffer_.size() >= max_export_batch_size_ ? max_export_batch_size_ : buffer_.size();
-    }
+    // Snapshot taken after the flush ticket was read: everything produced before a pending
+    // ForceFlush began is part of it.
+    const size_t buffer_size = buffer_.size();
+    num_records_to_export =
+        buffer_size >= max_export_batch_size_ ? max_export_batch_size_ : buffer_size;
 
     if (num_records_to_export == 0)
     {
@@ -275,7 +271,12 @@ void BatchSpanProcessor::Export()
                     });
 
     exporter_->Export(nostd::span<std::unique_ptr<Recordable>>(spans_arr.data(), spans_arr.size()));
-    NotifyCompletion(notify_force_flush, exporter_, synchronization_data_);
+    // A pending ForceFlush is complete only once the whole snapshot has been exported; larger
+    // snapshots are drained by further iterations, one bounded batch at a time.
+    if (buffer_size <= max_export_batch_size_)
+    {
+      NotifyCompletion(notify_force_flush, exporter_, synchronization_data_);
+    }
   } while (true);
 
 #ifdef ENABLE_THREAD_INSTRUMENTATION_PREVIEW
